@@ -439,16 +439,19 @@ def serverLoopH (tk : Option (List (Bytes × Bytes))) : Nat → M (Bytes × Head
 
 /-- ServerHandle for CONNECT. `keep` = the CONNECT branch wraps the connection so that the
 bufio read-ahead is delivered first (`Gen.C07.connectKeepsReadAhead`). -/
+def getFuel : M Nat := fun s => (.ok (s.inp.flatten.length + 1), s)
+/-- the pending conn is built on the raw connection unless wrapped: the bufio read-ahead is dropped -/
+def keepReadAhead (keep : Bool) : M Unit := fun s => (.ok (), if keep then s else { s with buf := [] })
+
 def serverHandleH (keep : Bool) (tk : Option (List (Bytes × Bytes))) : M (Bytes × Addr) := do
-  let fuel ← (fun s => (.ok (s.inp.flatten.length + 1), s) : M Nat)
+  let fuel ← getFuel
   let (u, h) ← serverLoopH tk fuel
   match parseAddr h.target with
   | none => do
     write C07.status400
     fail .badTarget
   | some a => do
-    -- the pending conn is built on the raw connection unless wrapped
-    (fun s => (.ok (), if keep then s else { s with buf := [] }) : M Unit)
+    keepReadAhead keep
     pure (u, a)
 
 def proceedH : M Unit := write C07.status200
